@@ -131,6 +131,14 @@ def one_case(rec, tap, rng, cid):
         if seg == 0 and "E" in p0 and p0["E"].vary:
             kw["optimal_fit_edelta"] = True
             kw["optimal_fit_num_samples"] = int(rng.integers(7, 12))
+            if rng.random() < .5:
+                # far more scan samples than points in the indentation part:
+                # shallow scan fits cannot be carried out, the plateau found
+                # among the repeated entries may leave the final fit without
+                # points (unsuccessful although earlier passes succeeded)
+                kw["optimal_fit_num_samples"] = int(rng.integers(40, 160))
+                rec.event("plateau searches with more scan samples than "
+                          "indentation points")
             kw["range_x"] = [0, float(rng.choice([np.inf, 5e-6, 1e-6]))]
             kw["method"] = method = "leastsq"
     scan_after = bool(rng.random() < .2 and seg == 0 and "E" in p0
@@ -156,6 +164,9 @@ def one_case(rec, tap, rng, cid):
     rec.event("fits with method " + method)
     rec.event("fits with gcf_k != 1" if k != 1 else "fits with gcf_k == 1")
     fitlab.check_consistency(rec, idnt, desc, init=init)
+    if kw.get("optimal_fit_edelta") and \
+            not idnt.fit_properties.get("success", False):
+        rec.event("unsuccessful plateau-search fits judged")
     if scan_after and idnt.fit_properties.get("success"):
         # an E(delta) scan of the fitted curve (many throw-away fits) leaves
         # the reported outputs of the fit as they are
@@ -231,6 +242,51 @@ def one_case(rec, tap, rng, cid):
     rec.sample(desc, limit=3)
 
 
+def plateau_fail_case(rec, rng, cid):
+    """plateau search on a coarsely sampled curve with many scan samples:
+    scan fits succeed, the final fit may have too few points - then nothing
+    of the earlier passes may be reported"""
+    mk = ["hertz_para", "hertz_cone", "hertz_pyr3s"][int(rng.integers(3))]
+    prm = gen.draw_params(rng, mk)
+    n = int(rng.integers(35, 90))
+    zmin = -float(rng.uniform(.6, 1.6) * 1e-6)
+    sigma = float(rng.choice([0, 0, 1e-11]))
+    data, truth = gen.make_arrays(rng, mk, prm, cp=0.0, n_app=n, n_ret=n,
+                                  zmax=4e-6, zmin=zmin, noise=sigma)
+    idnt = gen.make_indentation(data)
+    ns = int(rng.integers(25, 160))
+    kw = dict(model_key=mk, optimal_fit_edelta=True,
+              optimal_fit_num_samples=ns,
+              params_initial=gen.nanite_params(mk, prm),
+              gcf_k=float(rng.choice([1.0, .5])))
+    kw["params_initial"]["E"].value *= float(rng.uniform(.5, 2))
+    desc = {"id": cid, "kind": "plateau-search on a coarse curve",
+            "model": mk, "params": prm, "n": n, "zmin": zmin, "noise": sigma,
+            "settings": {a: b for a, b in kw.items()
+                         if a != "params_initial"}}
+    init = copy.deepcopy(kw["params_initial"])
+    try:
+        idnt.fit_model(**kw)
+    except BaseException as e:  # noqa
+        rec.event("plateau search on a coarse curve raised "
+                  + type(e).__name__)
+        return
+    rec.evaluated(dg=(mk, prm, n, zmin, ns, sigma))
+    rec.event("plateau searches on coarse curves judged")
+    if not idnt.fit_properties.get("success", False):
+        rec.event("unsuccessful plateau-search fits judged")
+    fitlab.check_consistency(rec, idnt, desc, init=init,
+                             prefix="coarse-plateau/")
+    # a following ordinary fit of the same object is consistent again
+    try:
+        idnt.fit_model(optimal_fit_edelta=False)
+    except BaseException as e:  # noqa
+        rec.event("fit after a plateau search raised " + type(e).__name__)
+        return
+    fitlab.check_consistency(rec, idnt, dict(desc, then="ordinary fit"),
+                             init=init, prefix="after-coarse-plateau/")
+
+
 def run_repository_suite(rec):
     """the repository's own tests as an extra workload under the monitors"""
     import json
@@ -276,6 +332,10 @@ def run_shard(rec, tier, seed, shard, nshards):
             for i in range(N_CASES[tier]):
                 one_case(rec, tap, core.case_rng(seed, ID, shard, i),
                          [shard, i])
+                if i % 8 == 0:
+                    plateau_fail_case(rec, core.case_rng(seed, ID, shard,
+                                                         10 ** 6 + i),
+                                      [shard, 10 ** 6 + i])
             rec.event("lmfit.minimize calls from nanite.fit", tap.nfit())
     finally:
         hmodels.deregister_all(mods)
@@ -286,7 +346,11 @@ def replay(rec, case):
     mods = hmodels.register_all()
     try:
         with fitlab.MinimizeTap() as tap:
-            one_case(rec, tap, core.case_rng(case["seed"], ID, cid[0],
-                                             cid[1]), cid)
+            if cid[1] >= 10 ** 6:
+                plateau_fail_case(rec, core.case_rng(case["seed"], ID,
+                                                     cid[0], cid[1]), cid)
+            else:
+                one_case(rec, tap, core.case_rng(case["seed"], ID, cid[0],
+                                                 cid[1]), cid)
     finally:
         hmodels.deregister_all(mods)
